@@ -182,6 +182,8 @@ func streamEngine(seed uint64, n int, driver, corpus, dump, variant string) (*Su
 	for i := 0; i < n; i++ {
 		g := &eng.Gen{R: root.Fork()}
 		switch variant {
+		case "fmt":
+			g.FmtModes = true
 		case "catch":
 			g.CatchBias = true
 		case "noposts":
